@@ -34,8 +34,9 @@ class SimFile:
 class SimRaw(io.RawIOBase):
     """Raw, unbuffered device over a SimFile.  Every operation is one trace entry and one hook call."""
 
-    def __init__(self, simfile: SimFile, readable=True, writable=False, append_pos=None, hook=None, handle_id=0):
+    def __init__(self, simfile: SimFile, readable=True, writable=False, append_pos=None, hook=None, handle_id=0, anonymous=False):
         super().__init__()
+        self._anonymous = anonymous  # like io.BytesIO: a stream that has no name a second handle could be opened by
         self._f = simfile
         self._pos = 0 if append_pos is None else append_pos
         self._r = readable
@@ -49,6 +50,8 @@ class SimRaw(io.RawIOBase):
     # -- identity -------------------------------------------------------
     @property
     def name(self):
+        if self._anonymous:
+            raise AttributeError("name")
         return self._f.path
 
     @property
